@@ -102,11 +102,20 @@ def cases(ctx):
     for rom, org in (("low", 0x00FFFD), ("low", 0x80FFFE), ("low", 0x6EFFFF), ("high", 0x40FFFC), ("high", 0xC1FFFF)):
         out.append({"kind": "bank-cross", "rom": rom, "trace": True, "spec": {"t": "blocks", "high": rom == "high"},
                     "src": f"*={org:#08x}\n.db 1, 2, 3, 4, 5, 6, 7, 8\nlda.l 0x123456\n.ascii 'crossing'\n"})
+    # one statement longer than the rest of its bank plus a whole window: what follows it is stored right behind it
+    big = (("low", 0x00C000, 0xC000), ("low", 0x808000, 0x10000), ("high", 0x40F000, 0x11000), ("low2", 0x81FFF0, 0x8020))
+    for rom, org, length in (big if tier == "thorough" else big[:1]):
+        blob = [(i * 11 + 5) & 0xFF for i in range(length)]
+        out.append({"kind": "long-statement", "rom": rom, "trace": True, "spec": {"t": "blocks", "high": rom == "high"},
+                    "files": {"big.bin": blob},
+                    "src": f"*={org:#08x}\n.db 0xE0\nblob:\n.incbin 'big.bin'\nafter:\n.dl after, blob\njmp.l after\n"})
     # user .map configurations
     for text, org, ram in MAPS:
         for body in ("nop\n.db 1,2,3\nl:\n.dl l\n", f"lda.w #0x1234\n@={ram:#08x}\nr:\n.dl r\n*={org + 0x20:#08x}\nrts\n",
                      ".db 1,2,3,4,5,6,7,8,9,10,11,12,13,14,15,16,17,18\nend:\n.dl end\n"):
-            out.append({"kind": "user-map", "rom": "low", "trace": True,
-                        "spec": {"t": "blocks", "high": False, "user_map": True},
-                        "src": f"{text}*={org:#08x}\n{body}"})
+            # with a built-in mapping chosen first (as the front ends do) and without (the bare library entry point)
+            for rom in ("low", None, "high"):
+                out.append({"kind": f"user-map:{rom}", "rom": rom, "trace": True,
+                            "spec": {"t": "blocks", "high": False, "user_map": True},
+                            "src": f"{text}*={org:#08x}\n{body}"})
     return out
